@@ -33,6 +33,22 @@ CHECKS = {
    technique="TLA+ BrokerIn/BrokerOut/BrokerCtl log-history invariants model-checked with TLC; the slog records of real executions are trace events validated by TLC, connect/refusal records compared per attempt in the gated replay",
    text="The log is a history variable of the broker specifications (LogMatchesDelivery, LogMatchesForwarded, NothingDroppedLogged); a capturing slog.Handler turns every Shell I/O record of a real execution into a trace event that TLC must be able to place exactly after the corresponding delivery, and the control replay checks one connect and one disconnect record per accepted stream and one error record with a true reason per refused stream.",
    note="Trusted: TLC, the capturing handler. The JSON framing of the real -log file is checked in the end-to-end leg."),
+ "C15": dict(level="exploration", design="DESIGN.md §6 C15, §4.7",
+   technique="TLA+ UU.tla transcription of uuencode/uudecode; TLC enumerates the case space, checks round-trip/length laws and emits expected results used as oracle for the real functions and perl (specification as oracle); TLC validates the 2^24-group tables",
+   text="UU.tla defines Enc, Dec, MaxEncodedLen, MaxDecodedLen over byte sequences; TLC enumerates encoder cases (lengths x content patterns) and decoder cases (valid encodings x 18 mutations: CR-LF, blank lines, bad length byte, wrong data length, characters outside the alphabet at each position class, backtick/space), checks RoundTrip / MaxLenOK / DecTotal on them and prints the expected outcome of each; the driver runs every case through AppendEncode/AppendDecode in three memory layouts (purity, no panic) and through perl pack/unpack, encodes all 2^24 three-byte groups with the real encoder, checks the per-character dependencies black-box and has TLC validate the projected tables against EncGroup.",
+   note="Contents beyond the enumerated classes (1 MiB random/adversarial) are seeded differential tests against perl, not model checking. perl 5.36 is the reference for Perl compatibility."),
+ "C16": dict(level="exploration", design="DESIGN.md §6 C16, §4.7",
+   technique="TLA+ PerlWrap.tla (CleanPerl over line classes; quoting pipeline over the uu alphabet) checked with TLC; its cases are the oracle for the real FromPerl (static reversal decoded by perl); generated programs executed under dash, bash and perl",
+   text="TLC enumerates every sequence of line classes up to the bound with the (lead comments, program text) PerlWrap.tla's Clean assigns, and checks that the substitution/quoting chain is the identity on the whole uu alphabet; each sequence is concretised, passed through the real FromPerl, the carried text statically reversed and decoded by perl and compared. Generated Perl programs (all byte values, quotes, backslashes, braces, here-docs, __END__, exit codes, die, arguments, stdin, every length residue, up to ~64 KiB) are run as shell functions under dash and bash and directly under perl, comparing stdout and exit status.",
+   note="'Every Perl program' is a bounded grammar with perl itself as behavioural oracle. Two open findings are listed in known-findings.json (zero-length script; raw CR after a here-document)."),
+ "C17": dict(level="model_checking", design="DESIGN.md §6 C17, §4.7",
+   technique="TLA+ Payload.tla: TLC enumerates every small directory shape x filter table, checks OnlyEligible/Sorted/IneligibleIsInert and emits the expected (file, filter) list; real trees on disk are compared byte for byte with Converter.From (specification as oracle)",
+   text="Payload.tla defines eligibility (regular, not dot-prefixed, matches a pattern), first-match filter precedence in sorted pattern order and name-ordered concatenation; TLC enumerates all directories of up to 2 (quick) / 3 (thorough) entries drawn from 12 name classes x types (regular, directory, valid link, dangling link) x content classes under 4 filter tables, checks the laws and prints the expected payload; the driver builds each tree with seeded spellings (spaces, glob characters, several extensions, editor lock and backup names) and compares Converter.From byte for byte, twice, plus every regular entry as a single source and a multi-source call.",
+   note="The conversion of one Perl file is the real FromPerl (decided by C16). Symbolic links are only generated among dot-files and names no pattern matches, as the quantifier says."),
+ "C18": dict(level="exploration", design="DESIGN.md §6 C18, §4.7",
+   technique="TLA+ TabList.tla: shell-lexer automaton over character classes, TLC checks that every escaped row lexes to one literal word; rows concretised and executed by real dash and bash on GenFuncList's output (specification as oracle)",
+   text="TabList.tla models Escape (every ' becomes '\\'') and the POSIX lexer restricted to unquoted / single-quoted / escaped modes; TLC checks OneLiteralWord, EndsUnquoted, NothingExposed, OnlyQuoteEscapes for every row over 19 classes up to length 3 (quick) / 4 (thorough). Each row is concretised with seeded spellings including command substitutions that would create a canary file, placed after the tag in payloads with duplicates and empty tags; GenFuncList's text is checked for unescaped quotes and sourced by dash and bash with echo stubbed: one word per row, rows as intended, nothing created; payloads free of TAB/VT/FF/0xFF must list exactly the expected (name, description) pairs, sorted and distinct.",
+   note="Rows are a class abstraction with seeded spellings, not every byte string; dash and bash stand for 'a POSIX shell'."),
 }
 
 PENDING = {}
